@@ -2,7 +2,7 @@
 
 mode "run":  {"items": [[case, folder], ...]}  - run each request into its folder; cases with fresh=false are also
              reloaded twice here, in the interpreter that ran them.
-mode "load": {"folders": [[folder, [output names]], ...]} - a FRESH interpreter: started by harness/props/c04.py only
+mode "load": {"folders": [[folder, [output names], [coordinate input names]], ...]} - a FRESH interpreter: started by harness/props/c04.py only
              after every "run" worker has exited, i.e. after every manager process of every run is gone.
 """
 import json
@@ -24,9 +24,9 @@ def main():
         from harness.props import c04_reload
 
         out = []
-        for folder, names in req["folders"]:
+        for folder, names, coords in req["folders"]:
             try:
-                out.append(c04_reload.two_loads(folder, names))
+                out.append(c04_reload.two_loads(folder, names, coords))
             except BaseException as e:  # noqa: BLE001
                 out.append(c04_reload.err(e))
         doc["results"] = out
